@@ -39,6 +39,7 @@ type C15W struct {
 	// real session that follows synchronizes a different state in Chunks messages.
 	AbortSplit int `json:"abort_split,omitempty"`
 	Chunks     int `json:"chunks,omitempty"`
+	ChunkShape int `json:"chunk_shape,omitempty"` // see RTEnd.ChunkShape
 }
 
 func c15Gen(rng *rand.Rand, conf string, idx int) any {
@@ -106,6 +107,7 @@ func c15Gen(rng *rand.Rand, conf string, idx int) any {
 	}
 	if w.Configured && rng.Intn(3) == 0 {
 		w.Chunks = 2 + rng.Intn(3)
+		w.ChunkShape = rng.Intn(4)
 	}
 	ns := 1 + rng.Intn(3)
 	perm := rng.Perm(13)
@@ -287,6 +289,7 @@ func c15Run(t *testing.T, wl any, sc SchedCfg) *Result {
 			if w.Configured {
 				r.Pods, r.Ctrs = mkState(fmt.Sprintf("s%d", r.N), 3+r.N, 4+r.N)
 				r.Chunks = w.Chunks
+				r.ChunkShape = w.ChunkShape
 			}
 		}
 		if w.AbortSplit > 0 {
